@@ -14,7 +14,7 @@ from ..fakes import tcp_device as td
 from ..prop import Prop
 from ..ref import frames
 
-ALPHABET = ["connect", "op_ok", "op_raise", "drop", "disconnect", "refused", "ctx_ok", "ctx_exc"]
+ALPHABET = ["connect", "op_ok", "op_raise", "drop", "disconnect", "refused", "ctx_ok", "ctx_exc", "op_big"]
 
 
 class Boom(Exception):
@@ -34,7 +34,7 @@ def legal(history):
             # connect or async-with on a client that is already connected is an input like any other: afterwards the
             # flag and the socket of the *current* session are judged as usual (what happens to the earlier socket is not)
             connected = a == "connect"
-        elif a in ("op_ok", "op_raise", "drop"):
+        elif a in ("op_ok", "op_raise", "drop", "op_big"):
             if not connected:
                 return False
         elif a == "disconnect":
@@ -119,6 +119,8 @@ class C18(Prop):
                 return td.EOF
             if mode["login"] == "drop":
                 return td.DROP
+            if mode["login"] == "big" and frames.classify(frame) not in ("login", "login2"):
+                return healthy(conn, idx, frame) + bytes(6000)     # a chatty device: far more than the client asks for
             return healthy(conn, idx, frame)
 
         dev.responder = responder
@@ -154,6 +156,7 @@ class C18(Prop):
             if len(dev.conns) > before:
                 cur["conn"] = dev.conns[-1]
                 cur["dropped"] = False
+                cur["unread"] = False
                 sn = api._writer.get_extra_info("sockname")
                 cur["port"] = sn[1] if sn else None
 
@@ -164,6 +167,12 @@ class C18(Prop):
             acc.count("eof_expected")
             if await td.wait_eof(conn, 5.0):
                 acc.count("eof_seen_by_device")
+                if conn.reset and cur.get("unread"):
+                    acc.violation("socket-reset-instead-of-end-of-stream", f"type {t} history {history}: after {after!r} the device's read failed with a connection "
+                                  f"reset instead of ending: about 6 KB of its data were still unread on the client side when the socket was closed",
+                                  {"history": history, "after": after, "trace": trace})
+                elif conn.reset:
+                    acc.count("resets_seen_without_unread_data")
                 return
             if cur["port"] and kernel_established(cur["port"], dev.ip, conn.port):
                 acc.violation("socket-left-open", f"type {t} history {history}: after {after!r} the device never saw end-of-stream and the kernel "
@@ -199,8 +208,25 @@ class C18(Prop):
                 mode["login"] = "ok"
                 out = await do_op()
                 trace.append(f"op_ok {out}")
-                if out != "returned" and not cur["dropped"] and not (cur["conn"] and cur["conn"].half_closed):
+                if out != "returned" and not cur["dropped"] and not cur.get("unread") and not (cur["conn"] and cur["conn"].half_closed):
                     acc.violation("healthy-operation-failed", f"history {history}: operation on a healthy connection ended with {out}", {"history": history, "trace": trace})
+            elif a == "op_big":
+                # the device answers with 6 KB and then pushes a little more, unasked; the client leaves most of it unread
+                mode["login"] = "big"
+                out = await do_op()
+                mode["login"] = "ok"
+                conn_now = cur["conn"]
+                if conn_now is not None and not conn_now.closed and not cur["dropped"]:
+                    try:
+                        conn_now.writer.write(b"\xfe\xf0" + bytes(98))
+                        await conn_now.writer.drain()
+                    except Exception:
+                        pass
+                    for _ in range(60):          # let the client's stream reader take in what it is willing to take
+                        await asyncio.sleep(0)
+                    await asyncio.sleep(0.005)
+                    cur["unread"] = True
+                trace.append(f"op_big {out}")
             elif a == "op_raise":
                 mode["login"] = "eof"
                 out = await do_op()
